@@ -18,19 +18,40 @@ META = {
 BASES = ["R3", "M4", "T3"]
 
 
-def _explain_mpc_branch_g(net, route):
-    """recorded defect C21-mpc-branch-g: to_mpc stores the branch conductances (transformer iron losses, line
-    g_us_per_km) as the extra struct field 'branch_g', from_mpc files it under net._options instead of handing it to
-    from_ppc -> the conductances are dropped.  Predicate: the route is the .mat file and the internal case of the
-    original has a non-zero BR_G on an in-service branch."""
-    if not route.startswith("mpc"):
-        return False
+def _explain(orig, src, conv, route, look, nb, exc=None):
+    """Predicates that recompute exactly what the recorded defects do (known_findings.d/C21.json)."""
+    from pandapower.converter.pypower import to_ppc, from_ppc
+    toks = []
+    kw = dict(trafo_model="pi", calculate_voltage_angles=True, init="flat")
     try:
-        from pandapower.pypower.idx_brch import BR_G, BR_STATUS
-        br = net._ppc["branch"]
-        return bool(np.any((np.abs(br[:, BR_G].real) > 0) & (br[:, BR_STATUS].real > 0)))
+        if exc is not None:
+            # C21-mpc-single-row: scipy.io.loadmat(squeeze_me=True) turns a 1 x n (or 0 x n) bus / branch matrix into a 1-d
+            # array, from_mpc._adjust_ppc_indices indexes it with [:, 0]
+            ppc = to_ppc(copy.deepcopy(src), **kw)
+            if route.startswith("mpc") and exc == "IndexError" and (ppc["branch"].shape[0] <= 1 or ppc["bus"].shape[0] <= 1):
+                toks.append("explained=mat_single_row_squeezed")
+            return toks
+        if route.startswith("ppc"):
+            # C21-line-g-halved: from_ppc writes g_us_per_km = BR_G / Zn * 1e6 / 2 although BR_G is the total conductance
+            if len(conv.line) and (conv.line.g_us_per_km.values != 0).any():
+                c2 = copy.deepcopy(conv)
+                c2.line["g_us_per_km"] = c2.line.g_us_per_km * 2.
+                if gx.run_pf(c2) == "ok" and not gx.compare(orig, c2, look, nb):
+                    toks.append("explained=line_g_halved")
+        else:
+            # C21-mpc-branch-g: from_mpc files the struct field 'branch_g' under net._options, from_ppc never sees it:
+            # the result must equal the PYPOWER route with that key removed
+            ppc = to_ppc(copy.deepcopy(src), **kw)
+            if "branch_g" in ppc:
+                ppc.pop("branch_g")
+                c2 = from_ppc(ppc, f_hz=src.f_hz)
+                if gx.run_pf(c2) == "ok" and len(c2.bus) == len(conv.bus):
+                    d = np.abs(c2.res_bus[["vm_pu", "va_degree"]].values - conv.res_bus[["vm_pu", "va_degree"]].values)
+                    if np.nanmax(d) < 1e-9:
+                        toks.append("explained=mpc_branch_g_dropped")
     except Exception:
-        return False
+        pass
+    return toks
 
 
 def run_case(case):
@@ -47,10 +68,10 @@ def run_case(case):
     for route in case["routes"]:
         out["n"] += 1
         src = copy.deepcopy(orig) if route.endswith("results") else copy.deepcopy(net0)
-        toks = ["route=" + route, "base=" + case["base"]] + ["dev=" + d[0] for d in case["devs"]]
+        toks = ["route=" + route, "family=" + route[:3], "base=" + case["base"]] + ["dev=" + d[0] for d in case["devs"]]
         try:
-            conv, look, nb = gx.convert(src, route)
-        except ImportError as e:
+            conv, look, nb = gx.convert(copy.deepcopy(src), route)
+        except ImportError:
             out["counts"]["unavailable_" + route] = out["counts"].get("unavailable_" + route, 0) + 1
             continue
         except Exception as e:
@@ -58,20 +79,21 @@ def run_case(case):
             import traceback
             tb = traceback.extract_tb(e.__traceback__)
             site = next(("%s:%d" % (os.path.basename(f.filename), f.lineno) for f in reversed(tb) if "pandapower" in f.filename), "?")
+            toks += ["exc=" + type(e).__name__, "site=" + site.split(":")[0]] + _explain(orig, src, None, route, None, None,
+                                                                                        exc=type(e).__name__)
             out["violations"].append(core.violation("conversion_raises", {"route": route, "exc": type(e).__name__, "msg": str(e)[:200],
-                                                                          "site": site},
-                                                    tokens=toks + ["exc=" + type(e).__name__, "site=" + site.split(":")[0]],
-                                                    klass=route + "/" + type(e).__name__))
+                                                                          "site": site}, tokens=toks, klass=route + "/" + type(e).__name__))
             continue
         cc = gx.run_pf(conv)
         out["counts"]["conv_" + cc] = out["counts"].get("conv_" + cc, 0) + 1
-        if _explain_mpc_branch_g(src, route):
-            toks.append("explained=mpc_branch_g_dropped")
         if cc != "ok":
             out["violations"].append(core.violation("converted_pf_fails", {"route": route, "outcome": cc}, tokens=toks + ["outcome=" + cc],
                                                     klass=route + "/" + cc))
             continue
-        for d in gx.compare(orig, conv, look, nb):
+        diffs = gx.compare(orig, conv, look, nb)
+        if diffs:
+            toks += _explain(orig, src, conv, route, look, nb)
+        for d in diffs:
             d["route"] = route
             out["violations"].append(core.violation(d["clause"], d, tokens=toks, klass=route + "/" + d["clause"]))
         sigs.append("%s|%s|%s|nb=%d|ntr=%d|nimp=%d|nsg=%d" % (case["base"], route, core.dhash(case["devs"]), nb, len(conv.trafo),
@@ -85,8 +107,15 @@ def gen_cases(tier):
     cases = []
     for b in BASES:
         m = gx.menu(b)
-        for devs in na.subsets(m, 2):
-            cases.append({"base": b, "devs": [list(d) for d in devs], "routes": gx.ROUTES})
+        if tier == "quick":
+            for devs in na.subsets(m, 1):
+                cases.append({"base": b, "devs": [list(d) for d in devs], "routes": gx.ROUTES})
+            for devs in na.subsets(gx.reduced_menu(b), 2):
+                if len(devs) == 2:
+                    cases.append({"base": b, "devs": [list(d) for d in devs], "routes": ["ppc_flat", "mpc_flat"]})
+        else:
+            for devs in na.subsets(m, 2):
+                cases.append({"base": b, "devs": [list(d) for d in devs], "routes": gx.ROUTES})
         if tier == "thorough":
             # k = 3 over the structural / tap part of the menu (bus elements fixed to one load + one gen)
             ms = [d for d in m if d[0] in ("set", "switch", "line", "trafo", "swapline", "bus", "sn", "impedance")]
@@ -97,15 +126,22 @@ def gen_cases(tier):
 
 
 def explore(tier, seed):
+    import os
     rep = core.Report(PROPERTY, LEVEL, tier, seed)
     core.warm(pf=True)
     cases = gen_cases(tier)
-    rep.rule = ("E1: every subset of <=2 (thorough: also every 3-subset of the structural/tap sub-menu) pairwise-compatible deviations "
-                "of the C21 menus on bases %s, each through the routes %s; distinct+non-trivial = original AND converted power flow "
+    kmax = os.environ.get("VERIF_K")       # triage aid: run the same enumeration at a smaller bound (recorded in the evidence)
+    if kmax:
+        cases = [c for c in cases if len(c["devs"]) <= int(kmax)]
+        rep.extra["restricted_by_env_VERIF_K"] = int(kmax)
+    rep.rule = ("E1: quick: every subset of <=1 deviations of the full C21 menus (3 routes) and every pair of the reduced menus (routes "
+                "ppc_flat, mpc_flat); thorough: every subset of <=2 of the full menus (3 routes) and every 3-subset of the structural/tap "
+                "sub-menu; bases %s, routes %s; distinct+non-trivial = original AND converted power flow "
                 "converged, keyed by (base, route, deviation-set hash, shape of the converted net)" % (BASES, gx.ROUTES))
-    rep.extra["bound_k"] = 2 if tier == "quick" else 3
+    rep.extra["bound_k"] = min(int(kmax), 3) if kmax else (2 if tier == "quick" else 3)
     rep.extra["deviation_sets"] = len(cases)
     rep.extra["menu_sizes"] = {b: len(gx.menu(b)) for b in BASES}
+    rep.extra["reduced_menu_sizes"] = {b: len(gx.reduced_menu(b)) for b in BASES}
     core.run_cases(rep, run_case, cases)
     rep.assumptions = ["tolerance 1e-6 (p.u. complex voltage; MW/Mvar relative to max(1, |value|))",
                        "only cases whose original runpp(trafo_model='pi', calculate_voltage_angles=True) converges are judged",
